@@ -517,25 +517,33 @@ def callInputs (cx : Cx) : List (String × Ty) → List Ast.CallInput → List (
     let r := callInputs cx (acc ++ [(i.id, callTy i.type)]) rest
     (r.1, d1 ++ ts.2 ++ d2 ++ r.2)
 
+def filterDiags (cx : Cx) (x : Option Filter) : List Diag :=
+  match x with
+  | some f => checkStrings cx f.values ""
+  | none => []
+
+def webhookDiags (cx : Cx) (e : WebhookEvent) : List Diag :=
+  checkStrings cx e.types "" ++ filterDiags cx e.branches ++ filterDiags cx e.branchesIgnore ++ filterDiags cx e.tags ++
+  filterDiags cx e.tagsIgnore ++ filterDiags cx e.paths ++ filterDiags cx e.pathsIgnore ++ checkStrings cx e.workflows ""
+
+def dispatchInputDiags (cx : Cx) (i : DispatchInput) : List Diag :=
+  checkString cx i.description "" ++ checkString cx i.dflt "" ++ checkBool cx i.required "" ++ checkStrings cx i.options ""
+
+def callSecretDiags (cx : Cx) (s : CallSecret) : List Diag := checkString cx s.description "" ++ checkBool cx s.required ""
+
 /-- one event of `on:` (`VisitWorkflowPre`) -/
 def visitEvent (cx : Cx) : Ast.Event → Cx × List Diag
-  | .webhook e =>
-    let f (x : Option Filter) : List Diag := match x with | some f => checkStrings cx f.values "" | none => []
-    (cx, checkStrings cx e.types "" ++ f e.branches ++ f e.branchesIgnore ++ f e.tags ++ f e.tagsIgnore ++ f e.paths ++ f e.pathsIgnore ++
-      checkStrings cx e.workflows "")
+  | .webhook e => (cx, webhookDiags cx e)
   | .schedule cron _ => (cx, checkStrings cx (some cron) "")
   | .dispatch inputs _ =>
     let ins := inputs.getD []
-    let ds := ins.flatMap fun kv =>
-      checkString cx kv.2.description "" ++ checkString cx kv.2.dflt "" ++ checkBool cx kv.2.required "" ++ checkStrings cx kv.2.options ""
-    ({ cx with hdr := { cx.hdr with dispatchInputs := some (ins.map fun kv => (kv.1, dispatchTy kv.2.type)) } }, ds)
+    ({ cx with hdr := { cx.hdr with dispatchInputs := some (ins.map fun kv => (kv.1, dispatchTy kv.2.type)) } },
+     ins.flatMap fun kv => dispatchInputDiags cx kv.2)
   | .repoDispatch types _ => (cx, checkStrings cx types "")
   | .call inputs secrets outputs _ =>
     let r := callInputs { cx with hdr := { cx.hdr with callInputs := some [] } } [] (inputs.getD [])
     let cx1 : Cx := { cx with hdr := { cx.hdr with callInputs := some r.1 } }
-    let ds := match secrets with
-      | some ss => ss.flatMap fun kv => checkString cx1 kv.2.description "" ++ checkBool cx1 kv.2.required ""
-      | none => []
+    let ds := (secrets.getD []).flatMap fun kv => callSecretDiags cx1 kv.2
     let cx2 : Cx := match secrets with
       | some ss => { cx1 with hdr := { cx1.hdr with callSecrets := some (ss.map (·.1)) } }
       | none => cx1
